@@ -183,6 +183,8 @@ const SPECS: &[&str] = &[
     "Q1", "FY21", "Col1", "A1", "$B$2", "#This Row", "[#This Row],[Q1]", "[#Totals],[Q1 2021]", "[A1]:[B2]", "It''s A1", "'[A1']", "'#A1",
     "[#Headers],[#Data],[C3]", "@A1", "@[FY21]", "", "Sales Amount", "é A1", "[[A1]]", "\"A1\"", "LOG10(A1)",
     "a'[b", "Q']A1", "'[A1", "'[", "[a]A1", "[#Data],B2", "[x],$C$3:[y]",
+    // every escaped character, also at the END of a column name (`'` escapes the next character, whatever it is)
+    "Bob''", "[#This Row],[Bob'']", "It''", "''", "a''''", "x'''[", "Q1'#", "a'@b", "[Total']]", "[Lead'[]", "[A''],[B'']", "'A1", "B2''",
 ];
 const OPS: &[char] = &['+', '-', '*', '/', '^', '&', '=', '<', '>'];
 
@@ -629,6 +631,34 @@ fn build_file(items: &[Item], layout_seed: u64) -> (Vec<u8>, Option<String>) {
     (built.bytes, wire)
 }
 
+/// how a file is written and read: the writer's layout seed (0 = plain) and the reader option set before
+/// `worksheet_formula` (`with_header_row(HeaderRow::Row(n))`; `None`: a freshly opened workbook).
+/// Pinned: `worksheet_formula` does not depend on the header-row option (the property and the API
+/// documentation name no such dependence; the unchanged reader ignores the option for formulas).
+#[derive(Clone, Copy, Debug, PartialEq)]
+struct Lay {
+    seed: u64,
+    header: Option<u32>,
+}
+
+impl Lay {
+    fn plain() -> Lay {
+        Lay { seed: 0, header: None }
+    }
+    fn wire(&self) -> String {
+        match self.header {
+            Some(h) => format!("{}h{}", self.seed, h),
+            None => self.seed.to_string(),
+        }
+    }
+    fn parse(s: &str) -> Lay {
+        match s.split_once('h') {
+            Some((a, b)) => Lay { seed: a.parse().unwrap(), header: Some(b.parse().unwrap()) },
+            None => Lay { seed: s.parse().unwrap(), header: None },
+        }
+    }
+}
+
 type Cells = Vec<((u32, u32), String)>;
 
 fn show_cells(r: &Result<Cells, String>) -> String {
@@ -639,9 +669,12 @@ fn show_cells(r: &Result<Cells, String>) -> String {
     }
 }
 
-fn impl_file(bytes: &[u8]) -> Result<Cells, String> {
+fn impl_file(bytes: &[u8], header: Option<u32>) -> Result<Cells, String> {
     let res = guarded(|| -> Result<Cells, String> {
         let mut wb: Xlsx<_> = Xlsx::new(Cursor::new(bytes.to_vec())).map_err(|e| format!("open:{e}"))?;
+        if let Some(h) = header {
+            wb.with_header_row(calamine::HeaderRow::Row(h));
+        }
         let rg = wb.worksheet_formula("S").map_err(|_| "err".to_string())?;
         let mut out = vec![];
         if let Some((sr, sc)) = rg.start() {
@@ -684,11 +717,11 @@ fn has_huge_si(items: &[Item]) -> bool {
 
 /// the implementation's result computed by a child process of this binary (env `C15_PROBE_FILE`),
 /// killed after 15 s: `Err("abort")` / `Err("timeout")` when it does not survive the file
-fn impl_file_child(items: &[Item], layout_seed: u64) -> Result<Cells, String> {
+fn impl_file_child(items: &[Item], lay: Lay) -> Result<Cells, String> {
     use std::process::{Command, Stdio};
     let exe = std::env::current_exe().expect("current_exe");
     let mut child = Command::new(exe)
-        .env("C15_PROBE_FILE", format!("{}:{}", layout_seed, items_wire(items)))
+        .env("C15_PROBE_FILE", format!("{}:{}", lay.wire(), items_wire(items)))
         .stdin(Stdio::null())
         .stdout(Stdio::piped())
         .stderr(Stdio::null())
@@ -823,12 +856,12 @@ fn file_sig(items: &[Item], imp: &Result<Cells, String>, want: &Cells) -> String
     }
 }
 
-fn run_file(items: &[Item], layout_seed: u64, drv: &mut Driver) -> FileOut {
-    let (bytes, wire) = build_file(items, layout_seed);
+fn run_file(items: &[Item], lay: Lay, drv: &mut Driver) -> FileOut {
+    let (bytes, wire) = build_file(items, lay.seed);
     let imp = if has_huge_si(items) {
-        impl_file_child(items, layout_seed)
+        impl_file_child(items, lay)
     } else {
-        impl_file(&bytes)
+        impl_file(&bytes, lay.header)
     };
     // the model reads the XML events that were written (event-level model of `next_formula`); the abstract
     // cell-list model (`sheet`) must agree with it (theorem `texts_spec` / `sheet_events_exact`)
@@ -845,9 +878,14 @@ fn run_file(items: &[Item], layout_seed: u64, drv: &mut Driver) -> FileOut {
     };
     let want = oracle_file(items, drv);
     let mut fails = vec![];
+    // a result that is right on a freshly opened workbook and wrong after `with_header_row` gets its own class
+    let header_dependent = |imp: &Result<Cells, String>, reference: &Cells| -> bool {
+        lay.header.is_some() && !has_huge_si(items) && imp.as_ref().ok() != Some(reference) && impl_file(&bytes, None).as_ref().ok() == Some(reference)
+    };
     if let Some(w) = &want {
         if imp.as_ref().ok() != Some(w) {
-            fails.push(("impl_vs_spec".to_string(), file_sig(items, &imp, w)));
+            let sig = if header_dependent(&imp, w) { "file:formulas_depend_on_header_row_option".to_string() } else { file_sig(items, &imp, w) };
+            fails.push(("impl_vs_spec".to_string(), sig));
         }
         if model.as_ref().ok() != Some(w) {
             fails.push(("model_vs_spec".to_string(), "file:model_differs".to_string()));
@@ -858,6 +896,8 @@ fn run_file(items: &[Item], layout_seed: u64, drv: &mut Driver) -> FileOut {
     }
     if imp != model {
         let sig = match &want {
+            Some(w) if header_dependent(&imp, w) => "file:formulas_depend_on_header_row_option".to_string(),
+            None if model.as_ref().map(|m| header_dependent(&imp, m)).unwrap_or(false) => "file:formulas_depend_on_header_row_option".to_string(),
             Some(w) if imp.as_ref().ok() != Some(w) => file_sig(items, &imp, w),
             _ if has_huge_si(items) && matches!(&imp, Err(e) if e == "abort" || e == "timeout") => "file:si-huge-allocation".to_string(),
             _ => "file:impl_model_differ".to_string(),
@@ -868,8 +908,8 @@ fn run_file(items: &[Item], layout_seed: u64, drv: &mut Driver) -> FileOut {
     FileOut { from_events, imp: show_cells(&imp), model: show_cells(&model), expect: want.map(|w| show_cells(&Ok(w))).unwrap_or_default(), fails }
 }
 
-fn shrink_file(mut items: Vec<Item>, layout_seed: u64, kind: &str, sig: &str, drv: &mut Driver) -> Vec<Item> {
-    let still = |it: &[Item], drv: &mut Driver| run_file(it, layout_seed, drv).fails.iter().any(|f| f.0 == kind && f.1 == sig);
+fn shrink_file(mut items: Vec<Item>, lay: Lay, kind: &str, sig: &str, drv: &mut Driver) -> Vec<Item> {
+    let still = |it: &[Item], drv: &mut Driver| run_file(it, lay, drv).fails.iter().any(|f| f.0 == kind && f.1 == sig);
     let mut progress = true;
     let mut budget = 300;
     while progress && items.len() > 1 && budget > 0 {
@@ -921,6 +961,15 @@ fn gen_file(rng: &mut Rng) -> Vec<Item> {
     rng.shuffle(&mut sis);
     if rng.chance(1, 10) {
         sis[0] += rng.range(1, 40) as u32; // gap in the numbering
+    }
+    if rng.chance(1, 4) {
+        // indices at and around powers of two / typical container thresholds
+        let k = rng.below(sis.len() as u64) as usize;
+        let t = *rng.pick(&[15u32, 16, 31, 32, 63, 64, 127, 128, 255, 256, 511, 512, 1023, 1024, 2047, 2048, 4095, 4096, 8191, 8192, 32_767, 32_768, 65_535, 65_536]);
+        let v = t + rng.below(2) as u32;
+        if !sis.contains(&v) {
+            sis[k] = v;
+        }
     }
     if rng.chance(1, 25) {
         // memory must follow the number of groups, not the value of si
@@ -1115,6 +1164,10 @@ fn corpus_unit() -> Vec<(Vec<Tok>, i64, i64)> {
         (vec![Tok::Ident("T".into()), Tok::Struct("[#This Row],[A1]".into())], 2, 0),
         (vec![Tok::Struct("1".into()), Tok::Sheet("Sheet1".into(), false), rf(false, 0, false, 0)], 1, 0),
         (vec![Tok::Ident("T".into()), Tok::Struct("'[A1']".into()), p('*'), rf(false, 1, false, 1)], 1, 1),
+        // seeded change C15-m5: `''` directly before the closing bracket, relative references after it
+        (vec![Tok::Ident("Table1".into()), Tok::Struct("[#This Row],[Bob'']".into()), p('*'), rf(false, 0, false, 1), p('+'), rf(false, 1, false, 1)], 1, 0),
+        (vec![Tok::Ident("Tbl".into()), Tok::Struct("It''".into()), p('&'), rf(false, 2, false, 2)], 2, 2),
+        (vec![Tok::Struct("a'@b''".into()), p('+'), rf(false, 0, false, 0)], 1, 1),
         // the pinned unit test of the repository
         (vec![rf(false, 0, false, 0)], 1, 0),
         (vec![Tok::Ident("XFE123".into()), p(' '), Tok::Str("A3".into()), p(' '), rf(false, 2, false, 106)], 1, 0),
@@ -1141,37 +1194,53 @@ fn corpus_raw() -> Vec<(&'static str, i64, i64)> {
     ]
 }
 
-fn corpus_files() -> Vec<(u64, Vec<Item>)> {
+/// `n` groups of two cells each (master in column A with `ref="A<r>:B<r>"`, member in column B), group `k` in row
+/// `k` with `si = base + k` (or a permutation of these values): what a writer that numbers groups 0, 1, 2, … produces
+fn many_groups(n: u32, base: u32, shuffled: bool, rng: &mut Rng) -> Vec<Item> {
+    let mut sis: Vec<u32> = (0..n).map(|k| base + k).collect();
+    if shuffled {
+        rng.shuffle(&mut sis);
+    }
+    let mut items = Vec::with_capacity(2 * n as usize);
+    for k in 0..n {
+        let toks = vec![rf(false, 3, false, k), Tok::Punct('+'), Tok::Num((k % 7).to_string())];
+        items.push(Item::Master { r: k, c: 0, si: sis[k as usize], rect: (k, 0, k, 1), toks });
+        items.push(Item::Child { r: k, c: 1, si: sis[k as usize] });
+    }
+    items
+}
+
+fn corpus_files() -> Vec<(Lay, Vec<Item>)> {
     let a1p1 = || vec![rf(false, 0, false, 0), Tok::Punct('+'), Tok::Num("1".into())];
     vec![
         // D11: 2-D block B1:C2, master B1 — C1 and C2 had no formula
-        (0, vec![
+        (Lay::plain(), vec![
             Item::Master { r: 0, c: 1, si: 0, rect: (0, 1, 1, 2), toks: a1p1() },
             Item::Child { r: 0, c: 2, si: 0 },
             Item::Child { r: 1, c: 1, si: 0 },
             Item::Child { r: 1, c: 2, si: 0 },
         ]),
         // D12: the master with si=1 appears before the master with si=0
-        (0, vec![
+        (Lay::plain(), vec![
             Item::Master { r: 0, c: 1, si: 1, rect: (0, 1, 1, 1), toks: a1p1() },
             Item::Child { r: 1, c: 1, si: 1 },
             Item::Master { r: 4, c: 1, si: 0, rect: (4, 1, 5, 1), toks: vec![rf(false, 0, false, 4), Tok::Punct('*'), Tok::Num("2".into())] },
             Item::Child { r: 5, c: 1, si: 0 },
         ]),
         // D13 through a file: mixed references in a column group
-        (0, vec![
+        (Lay::plain(), vec![
             Item::Master { r: 0, c: 1, si: 0, rect: (0, 1, 2, 1), toks: vec![rf(true, 0, false, 0), Tok::Punct('+'), rf(false, 0, true, 0)] },
             Item::Child { r: 1, c: 1, si: 0 },
             Item::Child { r: 2, c: 1, si: 0 },
         ]),
         // regression of the D12 repair (reported by ./check C06): a table sized by `si` — a 1 KB sheet with
         // si="4294967295" allocated 200 GB; the group must simply work
-        (0, vec![
+        (Lay::plain(), vec![
             Item::Master { r: 0, c: 1, si: u32::MAX, rect: (0, 1, 2, 1), toks: a1p1() },
             Item::Child { r: 1, c: 1, si: u32::MAX },
             Item::Child { r: 2, c: 1, si: u32::MAX },
         ]),
-        (0, vec![
+        (Lay::plain(), vec![
             Item::Master { r: 0, c: 1, si: 2_147_483_648, rect: (0, 1, 1, 2), toks: a1p1() },
             Item::Child { r: 0, c: 2, si: 2_147_483_648 },
             Item::Master { r: 1, c: 0, si: 0, rect: (1, 0, 2, 0), toks: vec![rf(false, 3, false, 1)] },
@@ -1179,18 +1248,47 @@ fn corpus_files() -> Vec<(u64, Vec<Item>)> {
             Item::Child { r: 2, c: 0, si: 0 },
         ]),
         // a follower with a huge si and no master has no formula; the ordinary group next to it works
-        (0, vec![
+        (Lay::plain(), vec![
             Item::Master { r: 0, c: 1, si: 0, rect: (0, 1, 1, 1), toks: a1p1() },
             Item::Child { r: 1, c: 1, si: 0 },
             Item::Child { r: 3, c: 1, si: u32::MAX },
         ]),
         // row group, master not at the left end of the declared range, non-members around
-        (0, vec![
+        (Lay::plain(), vec![
             Item::Value { r: 2, c: 1 },
             Item::Master { r: 2, c: 2, si: 3, rect: (2, 1, 2, 4), toks: vec![Tok::Ident("SUM".into()), Tok::Punct('('), rf(false, 2, false, 0), Tok::Punct(':'), rf(false, 2, true, 1), Tok::Punct(')')] },
             Item::Child { r: 2, c: 3, si: 3 },
             Item::Child { r: 2, c: 4, si: 3 },
             Item::Plain { r: 3, c: 2, toks: a1p1() },
+        ]),
+        // seeded change C15-m8: `worksheet_formula` must not depend on the header-row option
+        (Lay { seed: 0, header: Some(2) }, vec![
+            Item::Plain { r: 0, c: 0, toks: a1p1() },
+            Item::Master { r: 0, c: 1, si: 0, rect: (0, 1, 3, 1), toks: a1p1() },
+            Item::Child { r: 1, c: 1, si: 0 },
+            Item::Child { r: 2, c: 1, si: 0 },
+            Item::Child { r: 3, c: 1, si: 0 },
+        ]),
+        (Lay { seed: 0, header: Some(u32::MAX) }, vec![
+            Item::Master { r: 4, c: 1, si: 0, rect: (4, 1, 5, 2), toks: a1p1() },
+            Item::Child { r: 5, c: 2, si: 0 },
+        ]),
+        // seeded change C15-m6: group indices at container thresholds (a table that keeps small si apart)
+        (Lay::plain(), [255u32, 256, 1023, 1024, 1025, 4095, 4096, 65_535, 65_536].iter().enumerate().flat_map(|(k, si)| {
+            let r = 2 * k as u32;
+            vec![
+                Item::Master { r, c: 0, si: *si, rect: (r, 0, r + 1, 1), toks: vec![rf(false, 3, false, r), Tok::Punct('*'), Tok::Num("2".into())] },
+                Item::Child { r, c: 1, si: *si },
+                Item::Child { r: r + 1, c: 0, si: *si },
+                Item::Child { r: r + 1, c: 1, si: *si },
+            ]
+        }).collect()),
+        // seeded change C15-m5 through a file: a column name ending in an escaped apostrophe, references after it
+        (Lay::plain(), vec![
+            Item::Master { r: 1, c: 2, si: 0, rect: (1, 2, 3, 2), toks: vec![
+                Tok::Ident("Table1".into()), Tok::Struct("[#This Row],[Bob'']".into()), Tok::Punct('*'), rf(false, 0, false, 1), Tok::Punct('+'), rf(false, 1, false, 1)] },
+            Item::Child { r: 2, c: 2, si: 0 },
+            Item::Child { r: 3, c: 2, si: 0 },
         ]),
     ]
 }
@@ -1202,7 +1300,8 @@ fn main() {
         // child mode of `impl_file_child`: read one file with the real reader, print the result
         let q: Vec<&str> = desc.splitn(2, ':').collect();
         let items: Vec<Item> = q[1].split('|').map(Item::parse).collect();
-        println!("{}", show_cells(&impl_file(&build_file(&items, q[0].parse().unwrap()).0)));
+        let lay = Lay::parse(q[0]);
+        println!("{}", show_cells(&impl_file(&build_file(&items, lay.seed).0, lay.header)));
         return;
     }
     let args = Args::parse();
@@ -1220,7 +1319,9 @@ fn main() {
          file: xlsx sheets with 1-5 shared groups (column, row, block, single cell) on disjoint ranges anywhere in the sheet, \
          members = any subset of the declared range, master = first member in document order (ECMA-376 18.3.1.40: the master is the \
          first formula of the group; a member written before its master is outside the generator), si values shuffled with gaps and \
-         occasionally huge (up to 2^32-1; such files are read in a child process with a 15 s limit), \
+         occasionally huge (up to 2^32-1; such files are read in a child process with a 15 s limit) or at/around powers of two \
+         (15..65536 +-1), plus sheets with 1030-2100 two-cell groups numbered in sequence or shuffled; half of the files are read after \
+         with_header_row(Row(n)) (n above / inside / below the data: worksheet_formula must not depend on it), \
          cells of the range that are not members and cells outside carry values / own formulas / nothing; read with Xlsx::new + \
          worksheet_formula; the Lean model reads the XML events of the written worksheet part (xlsxw ev_wire) and is cross-checked \
          against the abstract cell-list model; oracle = translated master per member, own text elsewhere. non-trivial = unit case with >= 1 reference \
@@ -1297,8 +1398,18 @@ fn main() {
     }
 
     // ---------------- files ----------------
-    for (seed, items) in corpus_files() {
-        file_case(&items, seed, "corpus", &mut drv, &mut rep, &mut shrunk);
+    for (lay, items) in corpus_files() {
+        file_case(&items, lay, "corpus", &mut drv, &mut rep, &mut shrunk);
+    }
+    // sheets with MANY groups (container thresholds of a reader's group table): numbered in sequence, shuffled,
+    // and starting just below a threshold
+    let n_many = if args.n.is_some() { 1 } else if args.thorough() { 40 } else { 3 };
+    for k in 0..n_many {
+        let mut sub = rng.fork();
+        let n = *sub.pick(&[1100u32, 1030, 1300, 2100]);
+        let base = if k == 0 { 0 } else { *sub.pick(&[0u32, 0, 200, 900, 3000, 64_500]) };
+        let items = many_groups(n, base, k % 2 == 1, &mut sub);
+        file_case(&items, Lay::plain(), "many_groups", &mut drv, &mut rep, &mut shrunk);
     }
     let n_file = args.count(2_000, 200_000) / if args.n.is_some() { 10 } else { 1 };
     for _ in 0..n_file {
@@ -1306,7 +1417,22 @@ fn main() {
         let odd = sub.chance(1, 10);
         let items = if odd { gen_odd_file(&mut sub) } else { gen_file(&mut sub) };
         let layout_seed = if sub.chance(1, 3) { 0 } else { sub.next() | 1 };
-        file_case(&items, layout_seed, if odd { "odd" } else { "groups" }, &mut drv, &mut rep, &mut shrunk);
+        // reader history: an explicit header row set before `worksheet_formula` (above, inside, below the data)
+        let header = if sub.chance(1, 2) || items.is_empty() {
+            None
+        } else {
+            let r0 = items.iter().map(|i| i.pos().0).min().unwrap();
+            let r1 = items.iter().map(|i| i.pos().0).max().unwrap();
+            Some(match sub.below(6) {
+                0 => 0,
+                1 => r0,
+                2 => r0 + 1,
+                3 => r0 + sub.below((r1 - r0) as u64 + 1) as u32,
+                4 => r1.saturating_add(1),
+                _ => *sub.pick(&[1u32, 5, 1_048_575, u32::MAX]),
+            })
+        };
+        file_case(&items, Lay { seed: layout_seed, header }, if odd { "odd" } else { "groups" }, &mut drv, &mut rep, &mut shrunk);
     }
     rep.add("driver_requests", drv.requests);
     rep.write(&args.out);
@@ -1370,7 +1496,7 @@ fn raw_case(s: &str, dr: i64, dc: i64, drv: &mut Driver, rep: &mut Report) {
     }
 }
 
-fn file_case(items: &[Item], layout_seed: u64, class: &str, drv: &mut Driver, rep: &mut Report, shrunk: &mut u32) {
+fn file_case(items: &[Item], lay: Lay, class: &str, drv: &mut Driver, rep: &mut Report, shrunk: &mut u32) {
     // never build a sheet whose bounding box exceeds 2^21 cells (dense `Range` allocation, ledger D37)
     let (mut r0, mut c0, mut r1, mut c1) = (u32::MAX, u32::MAX, 0u32, 0u32);
     for it in items {
@@ -1384,8 +1510,8 @@ fn file_case(items: &[Item], layout_seed: u64, class: &str, drv: &mut Driver, re
         rep.count("file.skipped_bbox_too_large");
         return;
     }
-    let out = run_file(items, layout_seed, drv);
-    let input = format!("F:{}:{}", layout_seed, items_wire(items));
+    let out = run_file(items, lay, drv);
+    let input = format!("F:{}:{}", lay.wire(), items_wire(items));
     let members = items.iter().filter(|i| matches!(i, Item::Child { .. })).count();
     rep.case(&input, members > 0 && !out.expect.is_empty());
     rep.count(&format!("file.{class}"));
@@ -1414,12 +1540,12 @@ fn file_case(items: &[Item], layout_seed: u64, class: &str, drv: &mut Driver, re
     for (kind, sig) in &out.fails {
         let small = if *shrunk < 40 {
             *shrunk += 1;
-            shrink_file(items.to_vec(), layout_seed, kind, sig, drv)
+            shrink_file(items.to_vec(), lay, kind, sig, drv)
         } else {
             items.to_vec()
         };
-        let o2 = run_file(&small, layout_seed, drv);
-        rep.fail(kind, sig, &format!("F:{}:{}", layout_seed, items_wire(&small)), &o2.imp, &o2.model, &o2.expect);
+        let o2 = run_file(&small, lay, drv);
+        rep.fail(kind, sig, &format!("F:{}:{}", lay.wire(), items_wire(&small)), &o2.imp, &o2.model, &o2.expect);
     }
 }
 
@@ -1438,7 +1564,7 @@ fn replay_one(inp: &str, drv: &mut Driver, rep: &mut Report) {
         "F" => {
             let q: Vec<&str> = p[1].splitn(2, ':').collect();
             let items: Vec<Item> = q[1].split('|').map(Item::parse).collect();
-            file_case(&items, q[0].parse().unwrap(), "replay", drv, rep, &mut shrunk);
+            file_case(&items, Lay::parse(q[0]), "replay", drv, rep, &mut shrunk);
         }
         x => panic!("bad replay input kind {x}"),
     }
